@@ -404,3 +404,26 @@ Definition sp_add16 (a w : Z) : Z := sp_fold16 (a + w).
 Definition spec_checksum (f : bytes) : Z :=
   let z := ztk (sp_cksum f) f ++ zeros 4 ++ zdp (sp_cksum f + 4) f in
   (sp_fold16 (fold_left sp_add16 (sp_words z) 0) + zlen f) mod 4294967296.
+
+(* ------------------------------------------------------------------ the class of images relic's DigestPE accepts (domain of the
+   acceptance theorem): a well-formed image whose non-empty sections, IN SECTION-TABLE ORDER, tile the file from SizeOfHeaders
+   on, every non-empty section but the last table entry having a raw size that is a multiple of a non-zero FileAlignment;
+   NT headers behind the DOS header; a full-size optional header (debug/pe's structs are decoded whole); the first table
+   entry not pointing behind the headers when it is empty; the certificate table, if any, the tail of the file *)
+Definition sp_falign (f : bytes) : Z := u32 f (sp_opt f + 36).               (* FileAlignment *)
+Fixpoint tiles_tbl (secs : list (Z * Z)) (i nsec falign pos : Z) : option Z :=   (* Some end-of-sections *)
+  match secs with
+  | [] => Some pos
+  | (ptr, size) :: r =>
+      if size =? 0 then tiles_tbl r (i + 1) nsec falign pos
+      else if (ptr =? pos) && ((nsec - 1 <=? i) || (negb (falign =? 0) && (Z.rem size falign =? 0)))
+           then tiles_tbl r (i + 1) nsec falign (pos + size) else None
+  end.
+Definition relic_dom (f : bytes) : bool :=
+  spec_wf f && (64 <=? sp_lfanew f) && ((if sp_plus f then 240 else 224) <=? sp_optsize f) &&
+  ((sp_nsec f =? 0) || (fst (sp_sec f 0) <=? sp_soh f)) &&
+  match tiles_tbl (sp_secs f) 0 (sp_nsec f) (sp_falign f) (sp_soh f) with
+  | Some e => (e <=? zlen f) &&
+              ((sp_cert_size f =? 0) || ((e <=? sp_cert_va f) && (sp_cert_va f + sp_cert_size f =? zlen f)))
+  | None => false
+  end.
